@@ -1,4 +1,5 @@
 from datetime import datetime
+import numbers
 try:
     from functools import lru_cache
 except ImportError:  # pragma: no cover
@@ -280,6 +281,61 @@ def _get_path(grid, obj, paths):
         return NOT_FOUND
 
 
+_CMP_OPS = {
+    '==': lambda x, y: x == y,
+    '!=': lambda x, y: x != y,
+    '<': lambda x, y: x < y,
+    '<=': lambda x, y: x <= y,
+    '>': lambda x, y: x > y,
+    '>=': lambda x, y: x >= y,
+}
+
+
+def _kind(value):
+    """
+    The Project Haystack kind of a value, for comparison purposes: values of
+    different kinds are never equal and have no order.
+    """
+    if isinstance(value, bool):
+        return 'bool'
+    elif isinstance(value, Quantity):
+        return ('quantity', value.unit)
+    elif isinstance(value, numbers.Number):
+        return 'number'
+    elif isinstance(value, Uri):
+        return 'uri'
+    elif isinstance(value, Bin):
+        return 'bin'
+    elif isinstance(value, six.string_types):
+        return 'str'
+    elif isinstance(value, datetime):
+        return 'datetime'
+    else:
+        return type(value)
+
+
+def _compare(op, value, literal):
+    """
+    Compare the value of a tag against a literal the Project Haystack way: a
+    comparison on an absent tag, or between values of different kinds, is
+    false (only != is true for a present tag of another kind).
+    """
+    if value is NOT_FOUND:
+        return False
+    same_kind = _kind(value) == _kind(literal)
+    if op == '==':
+        return same_kind and bool(value == literal)
+    elif op == '!=':
+        return not (same_kind and bool(value == literal))
+    elif not same_kind:
+        return False
+    try:
+        return bool(_CMP_OPS[op](value, literal))
+    except TypeError:
+        # No order between these two (e.g. naive and aware timestamps)
+        return False
+
+
 def _generate_filter_in_python(node, def_filter, consts=None):
     # Only tag names and operators go into the generated source.  Literal
     # values are data: they are collected in `consts` and the source refers
@@ -288,6 +344,12 @@ def _generate_filter_in_python(node, def_filter, consts=None):
         consts = []
     if isinstance(node, FilterPath):
         def_filter.append("_get_path(_grid, _entity, %r)" % [str(p) for p in node.path])
+    elif isinstance(node, FilterBinary) and node.op in _CMP_OPS:
+        def_filter.append("_compare(%r, " % str(node.op))
+        def_filter.extend(_generate_filter_in_python(node.left, [], consts))
+        def_filter.append(", ")
+        def_filter.extend(_generate_filter_in_python(node.right, [], consts))
+        def_filter.append(")")
     elif isinstance(node, FilterBinary):
         def_filter.append("(")
         def_filter.extend(_generate_filter_in_python(node.left, [], consts))
